@@ -17,8 +17,8 @@ def main(tier, seed):
     ck.assumptions += ['the whole-file statement decode(compile g) = api_of g is validated per run, not proved',
                        'expected description of a GIR (harness/girgen.py) encodes the documented meaning of GIR '
                        'attributes; differences found were reviewed against girparser.c one by one',
-                       'generated GIRs use one namespace without includes; cross-namespace references are exercised '
-                       'by C17/C15', 'sizes/alignments/offsets of records are C08\'s subject and compared only between '
+                       'every other generated GIR includes two further namespaces and refers to their types (records of the same '
+                       'name in both, a pointer="1" record); deeper dependency chains are exercised by C17/C15', 'sizes/alignments/offsets of records are C08\'s subject and compared only between '
                        'decoder and API here']
     ck.prove(['gen_c06.py'], models=['Model/C06.vo'])
     ok, out = c_build()
@@ -33,14 +33,21 @@ def main(tier, seed):
     tmp = tempfile.mkdtemp(prefix='giv06')
     jobs, girs = [], []
     try:
+        for n, text in girgen.INCLUDED.items():
+            open(os.path.join(tmp, n + '-1.0.gir'), 'w').write(text)
+            rc, o = run([os.path.join(CBUILD, 'g-ir-compiler'), os.path.join(tmp, n + '-1.0.gir'), '-o', os.path.join(tmp, n + '-1.0.typelib')])
+            if rc != 0 or o.strip():
+                ck.tie_broken('harness', 'the included namespace %s does not compile: %s' % (n, o[-400:]))
         for i in range(nns):
             g = girgen.Gen(rng)
+            # every other document refers to types of two included namespaces (same-named records, a pointer record)
+            g.foreign = i % 2 == 1
             ns = g.namespace(rng.choice([3, 6, 10, 16]))
             gir = os.path.join(tmp, 'T-1.0.gir')
             tl = os.path.join(tmp, 'T-1.0.typelib')
-            xml = girgen.to_gir(ns)
+            xml = girgen.to_gir(ns, includes=[('X', '1.0'), ('Y', '1.0')] if g.foreign else ())
             open(gir, 'w').write(xml)
-            rc, o = run([os.path.join(CBUILD, 'g-ir-compiler'), gir, '-o', tl], timeout=120)
+            rc, o = run([os.path.join(CBUILD, 'g-ir-compiler'), '--includedir', tmp, gir, '-o', tl], timeout=120)
             ck.count_case(dict(entries=[(e['kind'], e['name']) for e in ns['entries']]), nontrivial=len(ns['entries']) > 2,
                           kind='ns:%d' % len(ns['entries']))
             if rc != 0 or o.strip():
@@ -48,7 +55,7 @@ def main(tier, seed):
                 if rc != 0:
                     continue
             data = open(tl, 'rb').read()
-            rc2, o2 = run([os.path.join(CBUILD, 'g-ir-compiler'), gir, '-o', tl + '.2'], timeout=120)
+            rc2, o2 = run([os.path.join(CBUILD, 'g-ir-compiler'), '--includedir', tmp, gir, '-o', tl + '.2'], timeout=120)
             if rc2 == 0 and open(tl + '.2', 'rb').read() != data:
                 ck.failing_input('compiling the same GIR twice gives different bytes', dict(gir=xml))
             p = subprocess.run([exe, tmp, 'T'], capture_output=True, text=True, timeout=120)
